@@ -18,6 +18,18 @@ CHECKS = {
          "sequentially consistent execution; non-atomic read-modify-write on fields is split by the instrumenter so lost updates manifest"),
  "C12": ("exploration", "3/C12", "1-8 writer tasks issue raw writes (empty, binary, multi-line, 64 KiB) through a named handle or a logger's Write while recycling one buffer that is overwritten right after Write returns; sync, async (free/starved/slow/gated worker), Console and File loggers built by Refresh or directly; oracle: every reference receives each writer's call-time snapshots once, in call order, byte-identical; n=len(b), err=nil; same handle for the same name; Refresh fails for an unconfigured requested name.",
          "at most 100 writes per case so that no overflow policy applies"),
+ "C01": ("exploration", "3/C01", "Model refinement inside simulated runs: generated configurations (all logger kinds incl. async drained by the simulated scheduler and rolling files on the simulated disk; level-range grammar over built-in and user-registered levels; 1-4 references in any order, equal lower bounds included; random key spelling) and events through all 15 entry points at every level; per-reference delivered set must equal the reference model's set, exactly once, at the entry point's own level.",
+         "literal '~MAX' upper bounds and three-part ranges are not generated (the statement leaves them open)"),
+ "C02": ("exploration", "3/C02", "Generated tag sets sharing prefixes x literal/wildcard tag lists on up to 4 loggers plus optional root, with Go's map iteration order at all nine range-over-map sites of Refresh replaced by a seeded permutation (the quantifier names map order explicitly); oracle: reference longest-prefix matcher plus the four error rules, observed through which logger's recording appender receives an event logged through each registered tag.",
+         "the wildcard '_*' (empty prefix) and wildcards containing a second '*' are not generated"),
+ "C05": ("exploration", "3/C05", "Every logger kind (async with recording appenders at a chosen buffer occupancy 0..capacity+ and worker idle/slow/held at a scheduler-controlled gate; sync over file+console; Console, File, RollingFile sync/async with/without .wf and layout) built directly or by Refresh; Stop/Destroy issued after all producers returned. Termination is the scheduler's exact deadlock/livelock verdict in the fair phase (no wall clock); flush is checked at the very step Stop returns; descriptors come from the simulated handle table.",
+         "premise of the property (no log call concurrent with Stop) is enforced by the workload"),
+ "C06": ("exploration", "3/C06", "(A) sequential operation histories with the worker single-stepped at a gated appender, compared operation by operation with an executable bounded-FIFO model (delivered sequence, discard counter, blocked or not); (B) 2-5 concurrent producers near capacity: per-producer order, conservation, porcupine linearizability against the atomic bounded queue for Discard/Block (history stamped with scheduler step numbers; Unknown = inconclusive), policy-independent consequences for DiscardOldest.",
+         "capacity in the model is the configured bufferSize; porcupine runs outside the bubble with a 2 s real-time budget per history"),
+ "C10": ("exploration", "3/C10", "Counting hooks keyed by context identity over all 15 entry points, enabled/disabled levels, hooks set/unset, built-in logger before Refresh and sync/async loggers after, 1-4 concurrent client tasks, simulated clock moved between calls: exactly-once invocation iff enabled, lazy generators likewise, record carries hook results (time = hook value or a simulated-clock reading inside the call window; context string; context fields ahead of call fields).",
+         "narrow by nature: most of the property is input-quantified; the simulator contributes the clock clause and async cross-talk"),
+ "C16": ("exploration", "3/C16", "Operation histories up to length 8/12 over Refresh(valid A/B), Refresh(invalid early/late incl. start failures on the simulated disk), Destroy, log via tag, raw write via handle, register tag, obtain handle; after every operation the system runs to quiescence and is compared with a lifecycle state machine (panic-freedom, no blocking, routing to configured sinks or the built-in console, second Refresh rejected, Destroy idempotent, no descriptor left open).",
+         "outcomes the statement leaves open between a failed Refresh and the next Destroy are not judged"),
 }
 NA = [
  ("C07", "pure function Event -> bytes; no schedule, clock, fault or shared state for a simulator to own (buffer recycling, its only stateful neighbour, is C03)"),
@@ -27,7 +39,7 @@ NA = [
  ("C17", "pure function string -> (map, error) (ANTLR parser); no concurrency, time or I/O"),
  ("C18", "pure predicate on a string plus a get-or-create map insert during single-threaded initialisation"),
 ]
-PENDING = {}  # properties whose checks are still under construction: listed as not claimed yet
+PENDING = {"C15": "check under construction (configuration resolution through simulated start-up); not claimed yet"}  # properties whose checks are still under construction: listed as not claimed yet
 m = {
  "version": 1,
  "setup_cmd": "./check setup",
